@@ -49,6 +49,13 @@ def parse_generator_expressions(
         except ValueError:
             return equal(arg)
 
+    def if_expr(arg: str) -> str:
+        parts = arg.split(',')
+        if len(parts) < 3:
+            mlog.warning(f"The cmake expression '$<IF:{arg}>' needs three parameters.", once=True, fatal=False)
+            return ''
+        return parts[1] if parts[0] == '1' else parts[2]
+
     def vers_comp(op: str, arg: str) -> str:
         col_pos = arg.find(',')
         if col_pos < 0:
@@ -123,7 +130,7 @@ def parse_generator_expressions(
         'OR': lambda x: '1' if any(y == '1' for y in x.split(',')) else '0',
         'NOT': lambda x: '0' if x == '1' else '1',
 
-        'IF': lambda x: x.split(',')[1] if x.split(',')[0] == '1' else x.split(',')[2],
+        'IF': if_expr,
 
         '0': lambda x: '',
         '1': lambda x: x,
